@@ -42,6 +42,24 @@ def _gid_jvp(primals, tangents):
 
 
 FAULT = {"fn": lambda c: c}
+HOLD = {"fk": 1.0, "ft": 1.0}          # tangent faults of the current run (set before the loss is built; functions below have a stable identity)
+
+
+def _ot_fault(i, o, p): return o * gid(p.eq_params["theta"], HOLD["ft"])
+def _ot_plain(i, o, p): return o * p.eq_params["theta"]
+def _it_id(i, p): return i
+def _entry_fault(c): return gid(c, HOLD["ft"])
+_EQ = {}
+
+
+def _eq_class():
+    if "cls" not in _EQ:
+        from jinns.loss import ODE
+        class Eq(ODE):
+            def equation(self, t, u, p):
+                return jax.grad(lambda t: u(t, p)[0])(t) + gid(jnp.ravel(p.eq_params["kappa"])[0], HOLD["fk"]) * u(t, p)
+        _EQ["cls"] = Eq
+    return _EQ["cls"]
 
 
 class FaultNet(eqx.Module):
@@ -70,18 +88,16 @@ def run(cfg, R):
     fk = jnp.array(1.0); ft = jnp.array(1.0)            # tangent faults (NaN flags are attached symbolically)
 
     def build(fk, ft):
+        HOLD["fk"], HOLD["ft"] = fk, ft
         if fault == "grad_entry":
             from jinns.utils._pinn import PINN
             from ..nets import mk_pr
             base = mk_pr(1, 1, 1, 1)
-            ot = lambda i, o, p: o * p.eq_params["theta"]
-            FAULT["fn"] = lambda c: gid(c, ft)
-            u = PINN(mlp=FaultNet(base.poly, base.ridge), slice_solution=jnp.s_[0:1], eq_type="ODE", input_transform=lambda i, p: i, output_transform=ot)
+            FAULT["fn"] = _entry_fault
+            u = PINN(mlp=FaultNet(base.poly, base.ridge), slice_solution=jnp.s_[0:1], eq_type="ODE", input_transform=_it_id, output_transform=_ot_plain)
         else:
-            ot = lambda i, o, p: o * gid(p.eq_params["theta"], ft)
-            u = mk_pinn(1, 1, "ODE", deg=1, H=1, ot=ot)
-        class Eq(ODE):
-            def equation(self, t, u, p): return jax.grad(lambda t: u(t, p)[0])(t) + gid(sc(p.eq_params["kappa"]), fk) * u(t, p)
+            u = mk_pinn(1, 1, "ODE", deg=1, H=1, ot=_ot_fault)
+        Eq = _eq_class()
         params = Params(nn_params=u.init_params(), eq_params={"theta": jnp.array(0.7), "kappa": jnp.array(1.3)})
         both = Params(nn_params=True, eq_params={"theta": True, "kappa": True})
         dk = DerivativeKeysODE(dyn_loss=both, observations=both, initial_condition=both)
